@@ -808,6 +808,12 @@ class _ServerKbdIntAuth(ServerAuth):
 
     _handler_names = get_symbol_names(globals(), 'MSG_USERAUTH_INFO_')
 
+    def __init__(self, conn: 'SSHServerConnection', username: str,
+                 method: bytes, packet: SSHPacket):
+        super().__init__(conn, username, method, packet)
+
+        self._info_requested = False
+
     @classmethod
     def supported(cls, conn: 'SSHServerConnection') -> bool:
         """Return whether keyboard interactive authentication is supported"""
@@ -847,6 +853,8 @@ class _ServerKbdIntAuth(ServerAuth):
             self.send_packet(MSG_USERAUTH_INFO_REQUEST, String(name),
                              String(instruction), String(lang),
                              UInt32(num_prompts), *prompts_bytes)
+
+            self._info_requested = True
         elif challenge:
             await self.send_success()
         else:
@@ -862,6 +870,15 @@ class _ServerKbdIntAuth(ServerAuth):
     def _process_info_response(self, _pkttype: int, _pktid: int,
                                packet: SSHPacket) -> None:
         """Process a keyboard interactive authentication response"""
+
+        # A response is only valid as the answer to an info request.
+        # In particular, it must not cancel a challenge or a validation
+        # of an earlier response which is still in progress.
+        if not self._info_requested:
+            raise ProtocolError('Unexpected keyboard interactive '
+                                'info response')
+
+        self._info_requested = False
 
         num_responses = packet.get_uint32()
         responses = []
